@@ -38,6 +38,9 @@ type c20Op struct {
 	Chain   uint16      `json:"chain,omitempty"`
 	Addr    int         `json:"addr,omitempty"`
 	Bad     bool        `json:"bad,omitempty"` // publish bytes that do not decode
+	N       int         `json:"n,omitempty"`      // burst: number of VAAs published back to back
+	Slow    bool        `json:"slow,omitempty"`   // subscribe: the stream takes a little while per message (a healthy but slower reader)
+	NoWait  bool        `json:"nowait,omitempty"` // publish: do not wait for the deliveries (part of a burst)
 }
 
 type c20Case struct {
@@ -54,6 +57,7 @@ type fakeStream struct {
 	got    [][]byte
 	gate   chan struct{} // closed = open; nil channel never used
 	done   chan error
+	slow   bool
 }
 
 func (f *fakeStream) Context() context.Context { return f.ctx }
@@ -65,6 +69,9 @@ func (f *fakeStream) Send(r *spyv1.SubscribeSignedVAAResponse) error {
 	case <-g:
 	case <-f.ctx.Done():
 		return f.ctx.Err()
+	}
+	if f.slow {
+		time.Sleep(30 * time.Microsecond)
 	}
 	f.mu.Lock()
 	f.got = append(f.got, r.VaaBytes)
@@ -140,11 +147,46 @@ func runC20(c c20Case) (*vh.Violation, vh.Outcome) {
 	}
 	stallSeen, multi := false, false
 	seq := uint64(0)
-	for i, o := range c.Ops {
+	// a burst is a run of publishes that do not wait for their deliveries, followed by one wait for all of them
+	var ops []c20Op
+	for _, o := range c.Ops {
+		if o.K == "burst" {
+			for j := 0; j < o.N; j++ {
+				ops = append(ops, c20Op{K: "publish", Chain: o.Chain, Addr: o.Addr, NoWait: true})
+			}
+			ops = append(ops, c20Op{K: "sync"})
+			out.Labels = append(out.Labels, "burst")
+			continue
+		}
+		ops = append(ops, o)
+	}
+	waitDelivered := func(i int, o c20Op) *vh.Violation {
+		for k, sb := range subs {
+			if sb.gone || sb.stalled {
+				continue
+			}
+			okc := false
+			for t0 := time.Now(); time.Since(t0) < deadline; time.Sleep(100 * time.Microsecond) {
+				if collapsed(sb.st) >= len(sb.want) {
+					okc = true
+					break
+				}
+			}
+			if !okc {
+				return vh.V("C20/not-delivered", "op %d: subscriber %d (filters %v) did not receive a published VAA it must get (emitter %d/%d, decodable=%v); it has %d of %d", i, k, sb.filters, o.Chain, o.Addr, !o.Bad, collapsed(sb.st), len(sb.want))
+			}
+		}
+		return nil
+	}
+	for i, o := range ops {
 		switch o.K {
+		case "sync":
+			if v := waitDelivered(i, o); v != nil {
+				return v, out
+			}
 		case "subscribe":
 			ctx, cancel := context.WithCancel(context.Background())
-			st := &fakeStream{ctx: ctx, cancel: cancel, gate: open(), done: make(chan error, 1)}
+			st := &fakeStream{ctx: ctx, cancel: cancel, gate: open(), done: make(chan error, 1), slow: o.Slow}
 			req := &spyv1.SubscribeSignedVAARequest{}
 			for _, f := range o.Filters {
 				a := c20Addr(f.Addr)
@@ -237,19 +279,9 @@ func runC20(c c20Case) (*vh.Violation, vh.Outcome) {
 				}
 			}
 			// every healthy subscriber receives it
-			for k, sb := range subs {
-				if sb.gone || sb.stalled {
-					continue
-				}
-				okc := false
-				for t0 := time.Now(); time.Since(t0) < deadline; time.Sleep(100 * time.Microsecond) {
-					if collapsed(sb.st) >= len(sb.want) {
-						okc = true
-						break
-					}
-				}
-				if !okc {
-					return vh.V("C20/not-delivered", "op %d: subscriber %d (filters %v) did not receive a published VAA it must get (emitter %d/%d, decodable=%v); it has %d of %d", i, k, sb.filters, o.Chain, o.Addr, !o.Bad, collapsed(sb.st), len(sb.want)), out
+			if !o.NoWait {
+				if v := waitDelivered(i, o); v != nil {
+					return v, out
 				}
 			}
 		case "stall":
@@ -326,9 +358,11 @@ func genC20(t *rapid.T) c20Case {
 		return c20Filter{Chain: rapid.SampledFrom([]uint16{1, 2, 255}).Draw(t, "chain"), Addr: rapid.IntRange(0, 2).Draw(t, "addr")}
 	})
 	op := rapid.Custom(func(t *rapid.T) c20Op {
-		switch rapid.SampledFrom([]string{"subscribe", "publish", "publish", "publish", "publish", "stall", "resume", "disconnect"}).Draw(t, "k") {
+		switch rapid.SampledFrom([]string{"subscribe", "publish", "publish", "publish", "publish", "stall", "resume", "disconnect", "burst"}).Draw(t, "k") {
 		case "subscribe":
-			return c20Op{K: "subscribe", Filters: rapid.SliceOfN(fg, 0, 3).Draw(t, "filters")}
+			return c20Op{K: "subscribe", Filters: rapid.SliceOfN(fg, 0, 3).Draw(t, "filters"), Slow: rapid.IntRange(0, 2).Draw(t, "slow") == 0}
+		case "burst":
+			return c20Op{K: "burst", Chain: rapid.SampledFrom([]uint16{1, 2, 255}).Draw(t, "chain"), Addr: rapid.IntRange(0, 2).Draw(t, "addr"), N: rapid.SampledFrom([]int{3, 20, 60, 150}).Draw(t, "n")}
 		case "stall":
 			return c20Op{K: "stall", Sub: rapid.IntRange(0, 5).Draw(t, "sub")}
 		case "resume":
